@@ -103,7 +103,8 @@ def features(sc):
         f["deepened"] = None
     try:
         dzl = (soil.get("kw") or {}).get("dz")
-        f["undeepenable"] = bool(f.get("deepened") and dzl and all(float(d) >= 0.25 for d in dzl))
+        import scenlib as _L
+        f["undeepenable"] = not _L.deepenable(sc)
     except Exception:
         f["undeepenable"] = None
     try:
